@@ -863,6 +863,10 @@ class Builder:
 
         # if self._mem_mgr.is_register_active(loop_register):
         #     raise ValueError("Register used for looping should not already be active")
+        if activate:
+            # Reserve the register the caller chose, like one taken from the pool: the
+            # body's temporaries must not use it and the context releases it at its end.
+            self._mem_mgr.add_active_register(loop_register)
         return loop_register
 
     def _loop_get_entry_commands(
